@@ -231,7 +231,9 @@ def r4_scottish(ctx):
     ctx.check(good, f, f.node, "metadata: (candidates, seats) from the first row, ward from the last", "", f"metadata extraction is {defs.get('(cand_num, seats)')}, {defs.get('ward')}")
     lp = astx.enclosing(cand_block[0], astx.parents(f.node), ast.For) if cand_block else None
     good = False
-    if lp is not None and astx.call_name(lp.iter) == "enumerate" and isinstance(lp.target, ast.Tuple) and len(lp.target.elts) == 2:
+    # the candidate lines are numbered as they stand in the file: the block itself is enumerated (not a re-ordered copy)
+    if lp is not None and astx.call_name(lp.iter) == "enumerate" and isinstance(lp.target, ast.Tuple) and len(lp.target.elts) == 2 and lp.iter.args \
+            and astx.strip_wrappers(lp.iter.args[0], ("list", "tuple")) is cand_block[0]:
         i, line = [astx.u(x) for x in lp.target.elts]
         start = lp.iter.args[1] if len(lp.iter.args) > 1 else next((k.value for k in lp.iter.keywords if k.arg == "start"), None)
         start = 0 if start is None else astx.const(start)
@@ -268,7 +270,13 @@ def r5_to_csv(ctx):
     prog = ctx.prog
     f = prog.find_func("PreferenceProfile.to_csv")
     pm = astx.parents(f.node)
-    fn = astx.unique_def(f.node, "fieldnames")
+    # the declared fields: the writer's fieldnames= argument (read through a temporary when there is one)
+    fn = None
+    for w in astx.calls_in(f.node, "DictWriter"):
+        fv = next((k.value for k in w.keywords if k.arg == "fieldnames"), w.args[1] if len(w.args) > 1 else None)
+        fn = astx.unique_def(f.node, fv.id) if isinstance(fv, ast.Name) else fv
+    if not isinstance(fn, (ast.List, ast.Tuple)):
+        fn = None
     rows = astx.calls_in(f.node, "writerow")
     good = False
     d = ""
